@@ -66,7 +66,7 @@ CHECKS = {
   category="model_checking",
   text="Solver verdict that Rune::from_str accepts exactly the A-Z names that fit u128 and returns their modified base-26 value (every char sequence of the listed lengths up to 29), that printing then parsing returns the same rune for all names up to 5 letters and for u128::MAX, that reserved names are exactly those >= the first 27-letter name with Rune::reserved total and exact, and that commitment is the minimal little-endian encoding for all u128.",
   design_ref="DESIGN.md §3 C32",
-  note="Partial: print->parse for names longer than 5 letters and everything about spacers (SpacedRune) is outside the decided bound (solver limits, stated in the evidence)."),
+  note="Partial: print->parse for names longer than 5 letters and everything about spacers (SpacedRune) is outside the symbolically decided bound (solver limits, stated in the evidence); there only concrete MIR evaluations at machine-width / name-length boundaries (about 80 runes, 172 spaced runes) are made, labelled as such."),
  "C25": dict(
   engine="E2-mir2smt + E1a-kani-ordinals",
   technique="differential symbolic execution: the MIR of the real Runestone::decipher and the MIR of a specification reference are executed path-wise on the same symbolic integer sequence and compared by SMT queries; LEB128 payload decoding by Kani/CBMC; native replay",
